@@ -21,6 +21,14 @@ def run(ctx):
             for fam in range(5, 9):
                 for alg in range(3):
                     jobs.append((exe, [fam, alg, 3, 0], be, fam == 8))
+    # the C++ classes once more in the ASCON_NO_STL configuration (the library's own copy-on-write byte_array under the byte_array overloads)
+    for be in (("asm", "c32") if ctx.thorough else ("asm",)):
+        lib = build.build_lib(be, no_stl=True)
+        exe = build.build_prog("c02", ["harness/c02.c", "harness/cpp_shim.cpp", "harness/sysrand.c", "ref/ref.c"], lib, extra=["-DASCON_NO_STL"], cfg_dep=True)
+        ctx.configs.append(lib["desc"] + " ASCON_NO_STL")
+        for fam in range(5, 9):
+            for alg in range(3):
+                jobs.append((exe, [fam, alg, 3, 0], be + "-nostl", fam == 8))
     # the masked family additionally under other share counts (its decrypt path differs per data-share count)
     for be in ("asm", "c64", "c32"):
         for tr in ([(2, 1, 2), (3, 3, 3), (4, 4, 4), (4, 1, 4), (3, 2, 3)] if not ctx.thorough else [t for t in build.ALL_TRIPLES if t != build.DEFAULT_TRIPLE]):
